@@ -89,10 +89,22 @@ def _guardeval(run, P):
         if isinstance(s_, ast.Assign) and norm(s_.value) == f"{st}.condition":
             aliases |= {t.id for t in s_.targets if isinstance(t, ast.Name)}
     ok = bool(rets)
+    from .util import path_conditions
+
+    def is_direct(v):
+        return isinstance(v, ast.Call) and dotted(v.func) in ("self.eval_mapper", "self.eval_mapper.rec") \
+            and bool(v.args) and norm(v.args[0]) in aliases
     for r in rets:
         v = r.value
-        direct = isinstance(v, ast.Call) and dotted(v.func) in ("self.eval_mapper", "self.eval_mapper.rec") \
-            and v.args and norm(v.args[0]) in aliases
+        direct = is_direct(v)
+        if not direct and isinstance(v, ast.Name):
+            # a local that holds the freshly evaluated guard (looked at for a better message, say)
+            srcs = [a_.value for a_ in ast.walk(f.node) if isinstance(a_, ast.Assign)
+                    and any(isinstance(t_, ast.Name) and t_.id == v.id for t_ in a_.targets)]
+            direct = len(srcs) == 1 and is_direct(srcs[0])
+        if not direct and isinstance(v, ast.Constant) and v.value is True:
+            # the guard that is the constant True needs no evaluation
+            direct = any(pol and t in {f"{a} is True" for a in aliases} for t, pol in path_conditions(f.node, r))
         ok = ok and direct
     if not ok and rets:
         # a table of remembered guard values: sound exactly when a remembered value is
